@@ -94,7 +94,7 @@ func (p c18) Run(w *mon.Worker, idx int) mon.Result {
 	if idx%10 == 9 && !w.Race {
 		return c18NulPrinter(w, idx)
 	}
-	if idx%10 == 4 && !w.Race {
+	if idx%20 == 4 && !w.Race {
 		return c18StringEvaluator(w, idx)
 	}
 	switch c18Family(w.Tier, idx) {
